@@ -5,6 +5,7 @@
 import Pongo.Model.ParseDoc
 import Pongo.Props.C13
 import Pongo.Gen.OSAccess
+import Pongo.Gen.LoadSites
 
 namespace Pongo.C11
 
@@ -161,6 +162,23 @@ end compile
     file or network access is `Error.RawLine` (a diagnostic helper that is not
     on any compile or execute path) -/
 theorem gen_no_os_access : Gen.osAccess.all (fun s => s.1 == "Error.RawLine") = true := by decide
+
+/-- the loaders are asked in exactly one place, the in-order loop `resolveTemplate`
+    (the model's `tryLoaders`): nothing else in the package calls a loader's `Get` -/
+theorem gen_loaders_asked_in_one_place :
+    (Gen.loadSites.filter (·.2.1 == "TemplateLoader.Get")).map (·.1) = ["TemplateSet.resolveTemplate"] := by decide
+
+/-- every tag that refers to another template (`extends`, `import`, `include` at compile time
+    and at run time, `ssi` in both forms) hands the name *as written* to the function in which
+    every loader resolves it relative to the referrer (`fromFileFor` / `resolveTemplate`); no
+    site anywhere passes on a name that one loader's `Abs` was already applied to — the shape of
+    D69, where the first loader's resolution was handed to the others -/
+theorem gen_references_by_written_name :
+    Gen.loadSites.all (fun s => s.2.2 != "resolved") = true ∧
+    Gen.loadSitesOfTags.all
+      (fun s => s.2.1 == "TemplateSet.fromFileFor" || s.2.1 == "TemplateSet.resolveTemplate") = true ∧
+    ["tagExtendsParser", "tagImportParser", "tagIncludeNode.Execute", "tagIncludeParser", "tagSSIParser"].all
+      (fun f => Gen.loadSites.any (fun s => s.1 == f && s.2.1 == "TemplateSet.fromFileFor")) = true := by decide
 
 /-! ### non-vacuity -/
 example : (tryLoaders b!"x" [[(b!"y", b!"1")], [(b!"x", b!"2")], [(b!"x", b!"3")]] 0 []) = (some b!"2", [(0, b!"x"), (1, b!"x")]) := by
